@@ -497,8 +497,15 @@ where
 
     fn announce_to_down(&mut self, num_members: usize, mut runtime: impl Runtime<T>) -> Result<()> {
         self.choice_buf.clear();
-        self.members
-            .choose_down_members(num_members, &mut self.choice_buf, &mut self.rng);
+        // Previous identities of our own address are kept as down members
+        // too: announcing to those would be talking to ourselves
+        let own_addr = self.identity.addr();
+        self.members.choose_down_members_if(
+            num_members,
+            &mut self.choice_buf,
+            &mut self.rng,
+            |candidate| candidate.addr() != own_addr,
+        );
 
         while let Some(chosen) = self.choice_buf.pop() {
             self.send_message(chosen.into_identity(), Message::Announce, &mut runtime)?;
